@@ -62,7 +62,10 @@ type Runner struct {
 	verifyAt       int64                 // virtual ms at which that call is due (0: none)
 	verifyOn       string                // the sender
 	quietFlag      atomic.Bool           // mirror of quiet, readable without W.Mu (FSM goroutines)
-	dropAppendAcks bool                  // acknowledgements of AppendEntries that carry entries are lost (inheritedtail macro)
+	holdISms       int                   // >0: the next InstallSnapshot request is held that long in the network (staleis macro)
+	heldISFrom     string                // its sender, once seen
+	heldISUntil    int64
+	dropAppendAcks bool // acknowledgements of AppendEntries that carry entries are lost (inheritedtail macro)
 	quiet          bool
 	faults         []*faultSpec
 	Feat           map[string]int
@@ -265,6 +268,13 @@ func (r *Runner) policy(m *sim.Msg, resp bool) sim.Verdict {
 			return sim.VRefuse
 		}
 		return sim.VDrop
+	}
+	if r.holdISms > 0 && !resp && m.Kind == sim.KSnapshot && !r.cut[[2]string{from, to}] {
+		m.ReadyAt = r.W.Now() + int64(r.holdISms)
+		r.heldISFrom, r.heldISUntil = m.From, m.ReadyAt
+		r.holdISms = 0
+		r.feat("msg-delayed-long")
+		return sim.VHold
 	}
 	if r.verifyOnIS > 0 && !resp && m.Kind == sim.KSnapshot && r.verifyAt == 0 {
 		r.verifyAt, r.verifyOn = r.W.Now()+int64(r.verifyOnIS-1), m.From
